@@ -153,6 +153,8 @@ def build(prog):
         elif k == "vmap":
             cal = st["callee"]
             gf = real_dist(cal["dist"], cal["tag"]) if "dist" in cal else build(cal)
+            if st.get("inner"):
+                gf = gf.repeat(st["inner"])  # a combinator applied directly to a combinator (no @gen in between)
             kw = {}
             if st.get("axis_size") is not None:
                 kw["axis_size"] = st["axis_size"]
@@ -180,7 +182,10 @@ def build(prog):
                 continue
             a = [E.ev(x, env) for x in st.get("args", [])]
             if k == "site":
-                env[st["addr"]] = gf(*a) @ st["addr"]
+                if st.get("kw_last"):
+                    env[st["addr"]] = gf(*a[:-1], **{st["kw_last"]: a[-1]}) @ st["addr"]
+                else:
+                    env[st["addr"]] = gf(*a) @ st["addr"]
             elif k == "call":
                 kw = {n: E.ev(x, env) for n, x in st.get("kwargs", {}).items()}
                 env[st["addr"]] = gf(*a, **kw) @ st["addr"]
@@ -451,7 +456,11 @@ class Generator:
         dist = self.pick_dist()
         addr = sc.fresh_addr()
         args = self.dist_args(sc, dist)
-        sc.body.append({"k": "site", "addr": addr, "dist": dist, "args": args, "tag": self.next_tag()})
+        st = {"k": "site", "addr": addr, "dist": dist, "args": args, "tag": self.next_tag()}
+        kwname = {"normal": "scale", "exponential": "rate", "uniform": "high"}.get(dist)
+        if kwname and self.rng.random() < self.cfg.get("site_kwargs", 0.25):
+            st["kw_last"] = kwname  # the built-in's last parameter is passed by keyword
+        sc.body.append(st)
         sc.vars[addr] = self.value_type(dist, args)
 
     # ---- sub programs
@@ -577,8 +586,10 @@ class Generator:
                 in_axes = 0
             st = {"k": "vmap", "addr": addr, "callee": {"dist": dist, "tag": self.next_tag()}, "in_axes": in_axes,
                   "axis_size": axis_size, "n": n, "args": args, "use_repeat": use_repeat}
+            if dist not in ("categorical", "p_cat") and rng.random() < self.cfg.get("stacked", 0.25):
+                st["inner"] = self.fresh_size()  # dist.repeat(m) under the vmap: choices (n, m)
             sc.body.append(st)
-            sc.vars[addr] = (DISTS[dist][0], (n,))
+            sc.vars[addr] = (DISTS[dist][0], (n,) + ((st["inner"],) if st.get("inner") else ()))
             return
         sub = self.fn(sc.depth + 1)
         npar = len(sub["params"])
@@ -716,7 +727,7 @@ def show(prog, indent=0):
     for st in prog["body"]:
         k = st["k"]
         if k == "site":
-            lines.append(f"{pad}  {st['addr']} ~ {st['dist']}{_sx(st['args'])}")
+            lines.append(f"{pad}  {st['addr']} ~ {st['dist']}{_sx(st['args'])}" + (f" [{st['kw_last']}= by keyword]" if st.get("kw_last") else ""))
         elif k == "let":
             lines.append(f"{pad}  {st['var']} = {_sx(st['e'])}")
         elif k == "call":
@@ -725,7 +736,7 @@ def show(prog, indent=0):
         elif k == "vmap":
             c = st["callee"]
             lines.append(f"{pad}  {st['addr']} ~ vmap[n={st['n']}, in_axes={st['in_axes']}, axis_size={st['axis_size']}, repeat={st.get('use_repeat')}]"
-                         + (f" {c['dist']}" if "dist" in c else "") + _sx(st["args"]))
+                         + (f" {c['dist']}" if "dist" in c else "") + (f".repeat({st['inner']})" if st.get("inner") else "") + _sx(st["args"]))
             if "dist" not in c:
                 lines.append(show(c, indent + 2))
         elif k == "scan":
@@ -823,6 +834,8 @@ class BareGF:
         elif k == "vmap":
             cal = st["callee"]
             inner = real_dist(cal["dist"], cal["tag"]) if "dist" in cal else build(cal)
+            if st.get("inner"):
+                inner = inner.repeat(st["inner"])
             kw = {}
             if st.get("axis_size") is not None:
                 kw["axis_size"] = st["axis_size"]
@@ -904,6 +917,7 @@ def bare_program(gen: "Generator"):
         if len(main) != 1:
             continue
         st = main[0]
+        st.pop("kw_last", None)  # the bare adapter passes a distribution's parameters positionally
         # drop the helper lets that stmt_scan appends after the scan statement
         body = [s for s in body if s is st or (s["k"] == "let" and body.index(s) < body.index(st))]
         if st["k"] == "scan":
